@@ -346,3 +346,15 @@ def auto_in_workplace_specs():
               "label": "auto-in-workplace:%s" % head}
         out.append(sp)
     return out
+
+
+def shared_child_spec():
+    """product DAG: top1 -> {k1, shared}, top2 -> {shared, k2}; 'shared' has two parents; plus an empty component"""
+    names = ["T0", "T1", "T2", "T3", "T4"]
+    tasks = [{"name": "T0", "work": 2.0}, {"name": "T1", "work": 1.0}, {"name": "T2", "work": 2.0}, {"name": "T3", "work": 1.0}, {"name": "T4", "work": 1.0, "due": 9}]
+    links = [[0, 3, "FS"], [1, 3, "FS"], [1, 4, "FS"], [2, 4, "FS"]]
+    comps = [{"name": "TOP1", "tasks": [3], "children": [2, 3]}, {"name": "TOP2", "tasks": [4], "children": [3, 4]},
+             {"name": "K1", "tasks": [0]}, {"name": "SHARED", "tasks": [1]}, {"name": "K2", "tasks": [2]}, {"name": "EMPTY", "tasks": []}]
+    full = {nm: 1.0 for nm in names}
+    teams = [{"name": "TM0", "targets": [0, 1, 2, 3, 4], "workers": [{"name": "W0", "skills": dict(full), "cost": 1.0}, {"name": "W1", "skills": dict(full), "cost": 2.0}]}]
+    return {"tasks": tasks, "links": links, "components": comps, "teams": teams, "label": "shared-child"}
